@@ -57,6 +57,8 @@ enum Expr {
     Audience(String),
     NoValidation,
     Script(bool),
+    /// rejects with an error that is not ClaimsError (a caller-defined validator may do that)
+    ScriptOtherError,
     And(Box<Expr>, Box<Expr>),
     VecOf(Vec<Expr>),
     BoxedSlice(Vec<Expr>),
@@ -78,6 +80,14 @@ impl Validate for Scripted {
     }
 }
 
+struct OtherError;
+impl Validate for OtherError {
+    type Claims = RegisteredClaims;
+    fn validate(&self, _: &RegisteredClaims) -> Result<(), PasetoError> {
+        Err(PasetoError::InvalidToken)
+    }
+}
+
 impl Expr {
     fn spec(&self, c: &RegisteredClaims) -> bool {
         match self {
@@ -89,6 +99,7 @@ impl Expr {
             Expr::Audience(s) => c.aud.as_deref() == Some(s),
             Expr::NoValidation => true,
             Expr::Script(v) => *v,
+            Expr::ScriptOtherError => false,
             Expr::And(a, b) => a.spec(c) && b.spec(c),
             Expr::VecOf(v) | Expr::BoxedSlice(v) => v.iter().all(|e| e.spec(c)),
             Expr::Boxed(e) | Expr::RcOf(e) | Expr::ArcOf(e) | Expr::MapId(e) => e.spec(c),
@@ -104,6 +115,7 @@ impl Expr {
             Expr::Audience(s) => Box::new(ForAudience(s.clone())),
             Expr::NoValidation => Box::new(NoValidation::dangerous_no_validation()),
             Expr::Script(v) => Box::new(Scripted { verdict: *v, calls: calls.clone() }),
+            Expr::ScriptOtherError => Box::new(OtherError),
             Expr::And(a, b) => Box::new(a.build(calls).and_then(b.build(calls))),
             Expr::VecOf(v) => Box::new(v.iter().map(|e| e.build(calls)).collect::<Vec<Dyn>>()),
             Expr::BoxedSlice(v) => {
@@ -126,6 +138,7 @@ impl Expr {
             Expr::Audience(s) => format!("ForAudience({s:?})"),
             Expr::NoValidation => "NoValidation".into(),
             Expr::Script(v) => format!("Script({v})"),
+            Expr::ScriptOtherError => "ScriptOtherError".into(),
             Expr::And(a, b) => format!("and_then({},{})", a.describe(), b.describe()),
             Expr::VecOf(v) => format!("vec![{}]", v.iter().map(|e| e.describe()).collect::<Vec<_>>().join(",")),
             Expr::BoxedSlice(v) => format!("Box<[{}]>", v.iter().map(|e| e.describe()).collect::<Vec<_>>().join(",")),
@@ -142,7 +155,7 @@ const STRS: &[&str] = &["issuer", "issuer ", "Issuer", "", "iss", "issuer\0", "Ã
 fn gen_expr(rng: &mut Rng, depth: usize, now: i128) -> Expr {
     let leaf = depth == 0 || rng.chance(2, 5);
     if leaf {
-        match rng.below(9) {
+        match rng.below(10) {
             0 => Expr::Time { now },
             1 => {
                 let l = *rng.pick(&[0u64, 1, 1_000_000_000, 3_600_000_000_000]);
@@ -155,6 +168,7 @@ fn gen_expr(rng: &mut Rng, depth: usize, now: i128) -> Expr {
             4 => Expr::Subject(rng.pick(STRS).to_string()),
             5 => Expr::Audience(rng.pick(STRS).to_string()),
             6 => Expr::NoValidation,
+            7 => Expr::ScriptOtherError,
             _ => Expr::Script(rng.chance(3, 4)),
         }
     } else {
@@ -284,7 +298,7 @@ fn pure_cases(opts: &Opts, rep: &mut Report) {
             let got = guard(|| v.validate(&two));
             let want = e.spec(claims);
             match got {
-                Ok(r) if r.is_ok() == want && (r.is_ok() || matches!(r, Err(PasetoError::ClaimsError))) => {}
+                Ok(r) if r.is_ok() == want && (r.is_ok() || matches!(r, Err(PasetoError::ClaimsError)) || e.describe().contains("ScriptOtherError")) => {}
                 Ok(r) => rep.violation("C11|map|projection", json!({"expr": e.describe(), "field": which, "spec": want, "library": verdict_name(&r), "a": claims_json(&two.a), "b": claims_json(&two.b)})),
                 Err(pn) => rep.violation("C11|map|panic", json!({"panic": pn})),
             }
@@ -308,7 +322,7 @@ fn one_pure(rep: &mut Report, e: &Expr, c: &RegisteredClaims, class: &str) {
             if r.is_ok() != want {
                 rep.violation(&format!("C11|{kind}|verdict-differs:{}", if want { "rejects-valid" } else { "accepts-invalid" }), detail(&verdict_name(&r)));
             } else if let Err(err) = &r {
-                if !matches!(err, PasetoError::ClaimsError) {
+                if !matches!(err, PasetoError::ClaimsError) && !d.contains("ScriptOtherError") {
                     rep.violation(&format!("C11|{kind}|wrong-error-kind"), detail(&verdict_name(&r)));
                 }
             }
@@ -370,7 +384,13 @@ fn through_unseal<B: Backend>(opts: &Opts, rep: &mut Report) {
                 }
                 rep.count("unseal.withheld");
             }
-            Ok(Err(other)) => rep.violation(&format!("C11|{}|{purpose}|wrong-error:{}", B::NAME, err_kind(&other)), detail(&format!("Err({})", err_kind(&other)))),
+            Ok(Err(other)) => {
+                // a caller-defined validator may reject with its own error kind; what matters is that nothing is released
+                if want || !e.describe().contains("ScriptOtherError") {
+                    rep.violation(&format!("C11|{}|{purpose}|wrong-error:{}", B::NAME, err_kind(&other)), detail(&format!("Err({})", err_kind(&other))));
+                }
+                rep.count("unseal.withheld");
+            }
             Err(pn) => rep.violation(&format!("C11|{}|{purpose}|panic", B::NAME), detail(&pn)),
         }
         rep.sample_class(&format!("{}.unseal.{}", B::NAME, want), 1, || detail(if want { "Ok(claims)" } else { "Err(ClaimsError)" }));
